@@ -11,8 +11,8 @@ EXTENDS GtfsRealtime, Json
 
 CONSTANT TraceFile
 Trace == ndJsonDeserialize(TraceFile)
-VARIABLE l
-Init == l = 1
+VARIABLES l, nCF      \* nCF: how many messages were conflict-free (the clauses of C02/C04 and order-independence applied)
+Init == l = 1 /\ nCF = 0
 
 EntsOf(msg, run) == [i \in DOMAIN run.order |-> msg.ents[run.order[i]]]
 
@@ -50,7 +50,9 @@ Step ==
        /\ Check("C07.order-independent", c, l,
                 cf => \A k \in Runs : (Ok(k) /\ Ok(1) /\ e.runs[k].zone = e.runs[1].zone) =>
                          C07_SameTripsVehiclesLinks(e.runs[k].res, e.runs[1].res))
+    /\ nCF' = nCF + (IF ConflictFree(Trace[l].msg.ents) THEN 1 ELSE 0)
     /\ l' = l + 1
-Spec == Init /\ [][Step]_l
+    /\ (l = Len(Trace) => PrintT(<<"COUNT", "conflict_free_messages", nCF'>>))
+Spec == Init /\ [][Step]_<<l, nCF>>
 TraceAccepted == TLCGet("stats").diameter - 1 = Len(Trace)
 =============================================================================
